@@ -30,7 +30,11 @@ Cut(st, drop, keep) == SubSeq(st, CutIdx(st, drop, keep) + 1, Len(st))
 Val(bag, st, k) == IF st \in DOMAIN bag THEN bag[st][k] ELSE 0
 SameBag(b1, b2) == \A st \in (DOMAIN b1) \cup (DOMAIN b2) : \A k \in 1..NCols : Val(b1, st, k) = Val(b2, st, k)
 HasFrame(st, S) == \E i \in DOMAIN st : st[i] \in S
-NoOpts == [focus |-> {}, ignore |-> {}, hide |-> {}, show |-> {}, si |-> NCols, rel |-> FALSE]
+NoOpts == [focus |-> {}, ignore |-> {}, hide |-> {}, show |-> {}, si |-> NCols, rel |-> FALSE, g |-> "functions"]
+\* granularity: the entry a frame is counted under; at files granularity the functions a and b share a file
+FileOf(f) == CASE f \in {"a", "b"} -> "zz1.x" [] f = "c" -> "zz2.x" [] f = "d" -> "zz3.x" [] OTHER -> "zz4.x"
+Ent(o, f) == IF o.g = "files" THEN FileOf(f) ELSE f
+HasEntry(st, o, e) == \E i \in DOMAIN st : Ent(o, st[i]) = e
 \* The session's profile: the merged bag keyed by the stacks AS MERGED, seen through the frame-dropping rules.
 \* (Pruning does not re-merge samples whose pruned stacks coincide, and the total adds the magnitude of every
 \* sample, so the sample granularity of the merged profile stays observable.)
@@ -43,8 +47,8 @@ SumOver(S, f(_)) == FoldSet(LAMBDA st, acc : acc + f(st), 0, S)
 \* stack before that (Kept); a sample whose frames are all gone is removed with them (Visible)
 Shown(p, o, st) == SelectSeq(V(p, st), LAMBDA f : (o.show = {} \/ f \in o.show) /\ f \notin o.hide)
 Visible(p, o) == {st \in Kept(p, o) : Len(Shown(p, o, st)) > 0}
-Flat(p, o, fn) == SumOver({st \in Kept(p, o) : Len(Shown(p, o, st)) > 0 /\ Shown(p, o, st)[1] = fn}, LAMBDA st : p.bag[st][o.si])
-Cum(p, o, fn) == SumOver({st \in Kept(p, o) : HasFrame(Shown(p, o, st), {fn})}, LAMBDA st : p.bag[st][o.si])
+Flat(p, o, e) == SumOver({st \in Kept(p, o) : Len(Shown(p, o, st)) > 0 /\ Ent(o, Shown(p, o, st)[1]) = e}, LAMBDA st : p.bag[st][o.si])
+Cum(p, o, e) == SumOver({st \in Kept(p, o) : HasEntry(Shown(p, o, st), o, e)}, LAMBDA st : p.bag[st][o.si])
 \* the total is the sum of the MAGNITUDES of the (merged) samples: with -base the differences count with their size
 Abs(x) == IF x < 0 THEN 0 - x ELSE x
 \* with -diff_base only the base samples count, if they have any weight: percentages are relative to the base
@@ -53,12 +57,13 @@ Total(p, o) ==
       base == SumOver({st \in S : st.b}, LAMBDA st : Abs(p.bag[st][o.si]))
   IN IF base > 0 THEN base ELSE SumOver(S, LAMBDA st : Abs(p.bag[st][o.si]))
 FnsOf(p) == UNION {{V(p, st)[i] : i \in DOMAIN V(p, st)} : st \in DOMAIN p.bag}
-TopRows(p, o) == {[fn |-> f, flat |-> Flat(p, o, f), cum |-> Cum(p, o, f)] : f \in FnsOf(p)}
+TopRows(p, o) == {[fn |-> e, flat |-> Flat(p, o, e), cum |-> Cum(p, o, e)] : e \in {Ent(o, f) : f \in FnsOf(p)}}
 \* a traces report: the kept stacks as seen, with their value in the selected column (zero entries are not printed)
 TraceRows(p, o) ==
   LET K == {st \in Kept(p, o) : Len(Shown(p, o, st)) > 0}
-      T == {Shown(p, o, st) : st \in K}
-      W(t) == SumOver({st \in K : Shown(p, o, st) = t}, LAMBDA st : p.bag[st][o.si])
+      E(st) == [i \in DOMAIN Shown(p, o, st) |-> Ent(o, Shown(p, o, st)[i])]
+      T == {E(st) : st \in K}
+      W(t) == SumOver({st \in K : E(st) = t}, LAMBDA st : p.bag[st][o.si])
   IN {[stack |-> t, w |-> W(t)] : t \in {x \in T : W(x) # 0}}
 
 =============================================================================
